@@ -75,10 +75,25 @@ def finish(pid, tier, seed, obs, results, sc, woven, wall, write_evidence=True):
                     trace = f['trace']
                     break
             text = r2.log
-        path, status = replay_mod.write_replay(pid, r.ob, new, trace, text, r.ob.defines)
+        rob = r.ob
+        if not r.ob.replayable and r.ob.twin:
+            # contract harness: the counterexample may start in an unreachable invariant state;
+            # ask the explicit bounded twin for a concrete input
+            tws = [o for o in obligations.all_obligations() if o.name.startswith(r.ob.twin)]
+            for tw in tws:
+                r2 = engine.build_and_check(tw, sc, want_trace=True)
+                for f in r2.failed:
+                    if f.get('trace') and not f['description'].startswith('CANARY'):
+                        trace = f['trace']
+                        rob = tw
+                        text = r.log + '\n--- twin ' + tw.name + ' ---\n' + r2.log
+                        break
+                if trace:
+                    break
+        path, status = replay_mod.write_replay(pid, rob, new, trace, text, rob.defines)
         r.replay = path
         tail = '' if status == 'reproduced' else ' no-failing-input-found'
-        names = ', '.join(f"{f['property']} ({f['description']})" for f in new[:3])
+        names = ', '.join(f"{f['property']} ({f['description']} @{os.path.basename(str(f.get('file')))}:{f.get('line')})" for f in new[:3])
         print(f'FAILED-OBLIGATION {r.ob.name}: {names} [native replay: {status}]')
         viol_lines.append(f'VIOLATION property={pid} replay={path}{tail}')
 
@@ -166,10 +181,14 @@ def finish(pid, tier, seed, obs, results, sc, woven, wall, write_evidence=True):
 def write_manifest(obligations):
     checks = []
     na = []
+    have = set(obligations.CLAIMED)
     for pid in sorted(obligations.PROPS):
         m = obligations.PROPS[pid]
         if m.get('not_applicable'):
             na.append({'property_id': pid, 'reason': m['not_applicable']})
+            continue
+        if pid not in have:
+            na.append({'property_id': pid, 'reason': obligations.NOT_BUILT})
             continue
         checks.append({
             'property_id': pid,
